@@ -296,8 +296,8 @@ pub fn run_c07(ctx: &mut Ctx, from: u64, to: u64) {
             // a large model (several MB on disk, > 16 MiB of decoded containers): round trip only
             let mut big = ModelData { bias: 3, char_window_size: 1, type_window_size: 1, ..ModelData::default() };
             let cjk = |i: usize| char::from_u32(0x4E00 + (i % 20000) as u32).unwrap();
-            for i in 0..270_000usize {
-                let w: String = [cjk(i / 700), cjk(7000 + i % 700), cjk(9000 + (i * 7) % 911)].iter().collect();
+            for i in 0..1_000_000usize {
+                let w: String = [cjk(i / 1000), cjk(7000 + i % 1000), cjk(9000 + (i * 7) % 911)].iter().collect();
                 big.dict_model.push(mirror::WordWeightRecord { word: w, weights: vec![1, -2, 3, (i % 5) as i32], comment: String::new() });
             }
             for i in 0..380_000usize {
@@ -433,9 +433,70 @@ fn gen_dict(rng: &mut Rng, case: &Case) -> Vec<mirror::WordWeightRecord> {
     recs
 }
 
+/// A dictionary of one million records installed with `replace_dictionary`: the edited model must still be
+/// writable and readable (it is about 25 MB on disk), and a dump of the accessors must reproduce it.
+fn big_dictionary_edit(ctx: &mut Ctx) {
+    let cjk = |i: usize| char::from_u32(0x4E00 + (i % 20000) as u32).unwrap();
+    let base = ModelData {
+        char_ngram_model: vec![mirror::NgramData { ngram: "a".into(), weights: vec![1, -1] }],
+        bias: 2,
+        char_window_size: 1,
+        type_window_size: 1,
+        ..ModelData::default()
+    };
+    let n = 1_000_000usize;
+    let r = guard(|| -> Result<usize, String> {
+        let mut m = model_from(&base)?;
+        let recs: Vec<WordWeightRecord> = (0..n)
+            .map(|i| {
+                let w: String = [cjk(i / 1000), cjk(2000 + i % 1000), cjk(5000 + (i * 7) % 997)].iter().collect();
+                WordWeightRecord::new(w, vec![1, (i % 9) as i32 - 4, 0, 2], String::new())
+            })
+            .collect::<Result<_, _>>()
+            .map_err(|e| format!("record rejected: {e}"))?;
+        m.replace_dictionary(recs);
+        let bytes = m.to_vec().map_err(|e| format!("to_vec: {e}"))?;
+        let (again, rest) = Model::read_slice(&bytes).map_err(|e| format!("the edited model cannot be read back ({} bytes): {e}", bytes.len()))?;
+        if !rest.is_empty() {
+            return Err("read_slice left bytes".into());
+        }
+        let m2 = Model::read(io::Cursor::new(&bytes)).map_err(|e| format!("the edited model cannot be read back through a reader: {e}"))?;
+        if again.dictionary().len() != n || m2.dictionary().len() != n {
+            return Err(format!("dictionary has {} / {} records after the round trip, {n} were installed", again.dictionary().len(), m2.dictionary().len()));
+        }
+        // dump through the accessors and re-install: byte-for-byte the same model
+        let mut m3 = model_from(&base)?;
+        let dump: Vec<WordWeightRecord> = again
+            .dictionary()
+            .iter()
+            .map(|r| WordWeightRecord::new(r.get_word().to_string(), r.get_weights().to_vec(), r.get_comment().to_string()))
+            .collect::<Result<_, _>>()
+            .map_err(|e| format!("dumped record rejected: {e}"))?;
+        m3.replace_dictionary(dump);
+        if m3.to_vec().map_err(|e| format!("to_vec: {e}"))? != bytes {
+            return Err("dump of the accessors does not reproduce the edited model".into());
+        }
+        Ok(bytes.len())
+    });
+    ctx.eval(1);
+    match r {
+        Ok(Ok(len)) => {
+            ctx.count("edits_installing_a_million_records", 1);
+            ctx.count("large_edited_model_bytes", len as u64);
+            ctx.nontrivial(len as u64);
+        }
+        Ok(Err(e)) => ctx.violation("C19:large_dictionary_edit_does_not_round_trip", J::obj(vec![("what", J::s(&e)), ("records", J::i(n))])),
+        Err(p) => ctx.violation(&format!("C19:library_panicked:{}", panic_site(&p)), J::obj(vec![("panic", J::s(&p)), ("what", J::s("dictionary of one million records"))])),
+    }
+}
+
 pub fn run_c19lib(ctx: &mut Ctx, from: u64, to: u64) {
     for k in from..to {
         ctx.begin_case(k);
+        if k == 3 {
+            big_dictionary_edit(ctx);
+            continue;
+        }
         let mut rng = Rng::new(case_seed(ctx.seed, "C19lib", k));
         let mut o = GenOpts::default();
         o.max_text_len = 80;
